@@ -926,6 +926,10 @@ class QMI_TcpTransport(QMI_SocketTransport):
         except socket.timeout as e:
             self._socket.close()
             raise QMI_TimeoutException("Timeout while connecting to {}".format(self._address)) from e
+        except OSError:
+            # Release the socket also when the connection is refused or the host is unreachable.
+            self._socket.close()
+            raise
 
     def close(self) -> None:
         _logger.debug("Closing TCP transport %s", self)
